@@ -30,6 +30,8 @@ def regenerate(ctx):
     gd = "true" if facts.get("guardDelete") == "true" else "false"
     rg = "true" if facts.get("recheckGrant") == "true" else "false"
     de = facts.get("deletesElsewhere", "99") if ok else "99"
+    ea = "true" if facts.get("expiredAtomic") == "true" else "false"
+    um = "true" if facts.get("unloadUnderLoadedMu") == "true" else "false"
     body = ("-- REGENERATED on every run by vlib/checks/sched_common.py (harness/cmd/schedfacts) from /repo's sched.go.\n"
             "import OllamaVerif.Model.Sched\n"
             "namespace OllamaVerif.Generated.C01\n"
@@ -37,9 +39,14 @@ def regenerate(ctx):
             f"/-- extractor output: {p.stdout.strip().replace(chr(10), '; ')[:300]} -/\n"
             f"def treeVariant : Variant := ⟨{gd}, {rg}⟩\n"
             f"def deletesElsewhere : Nat := {de}\n"
+            "/-- the expired handler tests refCount and unloads in ONE critical section of refMu (no check-then-act window) -/\n"
+            f"def expiredAtomic : Bool := {ea}\n"
+            "/-- unload() and the delete from `loaded` happen while loadedMu is held (the model's atomic `cExp` region) -/\n"
+            f"def unloadUnderLoadedMu : Bool := {um}\n"
             "end OllamaVerif.Generated.C01\n")
     core.write_generated("OllamaVerif/Generated/C01_SchedFacts.lean", body)
-    ctx.coverage["tree_variant"] = {"guardDelete": gd, "recheckGrant": rg, "extractor_ok": ok}
+    ctx.coverage["tree_variant"] = {"guardDelete": gd, "recheckGrant": rg, "expiredAtomic": ea,
+                                    "unloadUnderLoadedMu": um, "extractor_ok": ok}
     return "good" if (gd, rg) == ("true", "true") else "pinned" if (gd, rg) == ("false", "false") else None
 
 
